@@ -10,6 +10,7 @@ import MocModel.Drv.Auth
 import MocModel.Drv.Gate
 import MocModel.Drv.Merge
 import MocModel.Drv.Router
+import MocModel.Drv.Sqlite
 open Moc.Drv
 
 def handlers : List (String × Handler) := [
@@ -25,7 +26,8 @@ def handlers : List (String × Handler) := [
   ("C01", AuthD.handler),
   ("ws", GateD.handler),
   ("merge", MergeD.handler),
-  ("router", RouterD.handler)
+  ("router", RouterD.handler),
+  ("sqlite", SqliteD.handler)
 ]
 
 def main (args : List String) : IO UInt32 := do
